@@ -310,6 +310,33 @@ func verifScenarioRestartRoundTrip() {
 	for _, bs := range blocks {
 		exportedEpochs += len(bs.EpochHashSeeds)
 	}
+	// The exported state is EXACTLY the synchronized part of the list: block j of the export
+	// is block j of the list with its synchronized write offset, carrying those of the epochs
+	// created while it was the last block that have been synchronized - no epoch whose data
+	// sync has merely started, none left out, no trailing block without epochs.
+	vnd.Assert(exportedEpochs == bl.synchronizedEpochs, "the exported state does not carry exactly the synchronized epochs (an epoch that is still synchronizing leaked, or a synchronized one is missing)")
+	vnd.Assert(len(blocks) <= len(bl.blocks), "more blocks exported than the list holds")
+	first := 0
+	for j, bs := range blocks {
+		if j >= len(bl.blocks) {
+			break
+		}
+		vnd.Assert(bs.BlockLocation == bl.blocks[j].blockLocation, "exported block j is not block j of the list")
+		vnd.Assert(bs.WriteOffsetBytes == bl.blocks[j].synchronizedOffsetBytes, "exported write offset is not the block's synchronized offset")
+		want := bl.blocks[j].epochCount
+		if first+want > bl.synchronizedEpochs {
+			want = bl.synchronizedEpochs - first
+		}
+		vnd.Assert(len(bs.EpochHashSeeds) == want, "exported block does not carry exactly its own synchronized epochs")
+		for e := 0; e < len(bs.EpochHashSeeds) && first+e < len(bl.epochHashSeeds); e++ {
+			vnd.Assert(bs.EpochHashSeeds[e] == bl.epochHashSeeds[first+e], "exported epoch hash seed differs from the list's")
+		}
+		first += bl.blocks[j].epochCount
+	}
+	if n := len(blocks); n > 0 {
+		vnd.Assert(len(blocks[n-1].EpochHashSeeds) > 0, "a trailing block without synchronized epochs was exported")
+	}
+	vnd.Assert(bl.blocksReleasing == len(bl.blocksToRelease), "exporting the state did not mark the pending blocks as releasable by the corresponding state write")
 	alloc2 := &verifPAllocator{refuseAt: -1}
 	if len(blocks) > 0 && vnd.Choose(2) == 1 {
 		vnd.Cover("location-refused")
